@@ -22,6 +22,7 @@ structure Decl where
   hasProcess : Bool
   nops : Nat
   defId : Nat
+  refs : List Ty
 
 structure St where
   decls : List Decl := []
@@ -47,14 +48,15 @@ def kv (w : String) (k : String) : Option String :=
 
 def parseDecl (ws : List String) : Option Decl :=
   match ws with
-  | [id, subs, prim, join, proc, nops, defId] => do
+  | [id, subs, prim, join, proc, nops, defId, refs] => do
     pure { name := ← id.toNat?
            subs := ← parseNats (← kv subs "subs")
            prim := ← parseNats (← kv prim "prim")
            isJoin := (← kv join "join") == "1"
            hasProcess := (← kv proc "proc") == "1"
            nops := ← (← kv nops "nops").toNat?
-           defId := ← (← kv defId "def").toNat? }
+           defId := ← (← kv defId "def").toNat?
+           refs := ← parseNats (← kv refs "refs") }
   | _ => none
 
 /-- `s@d:in>outs|emitted` -/
@@ -85,7 +87,7 @@ def respOf (calls : List Call) (s : Ty) (skip : Nat) : List Ev → Ev → Res :=
 
 def mkDef (calls : List Call) (skip : Ty → Nat) (d : Decl) : SDef :=
   { name := d.name, subs := d.subs, prim := d.prim, isJoin := d.isJoin, hasProcess := d.hasProcess,
-    nops := d.nops, defId := d.defId, resp := respOf calls d.name (skip d.name) }
+    nops := d.nops, defId := d.defId, refs := d.refs, resp := respOf calls d.name (skip d.name) }
 
 def chunks (evs : List Ev) : List Nat → List (List Ev)
   | [] => []
